@@ -115,7 +115,7 @@ Definition write_text_archive (mc : mode) (S : fsys) (p : str) (a : text_archive
   fs_write_text_archive (lz_compress mc) text_archive (ser_text mc) S p a loc.
 
 (* one typed call of a history (the correspondence kind `fstyped` runs these) *)
-Inductive top :=
+Inductive tcall :=
 | TRead (p : str) (loc : bool) | TWrite (p : str) (b : bytes) (loc : bool)
 | TReadArchive (p : str) (loc : bool) | TReadText (p : str) (loc : bool)
 | TReadArc (p : str) (loc : bool) | TReadFe9Arc (p : str) (loc : bool) | TReadTextures (k : N) (p : str) (loc : bool)
@@ -123,7 +123,7 @@ Inductive top :=
 Inductive tobs :=
 | OBytes (r : fres bytes) | OUnit (r : fres unit) | OArchive (r : fres BinArchive.archive) | OText (r : fres text_archive)
 | OFiles (r : fres files) | OTextures (r : fres textures).
-Definition typed_step (mc md : mode) (S : fsys) (o : top) : fsys * tobs :=
+Definition typed_step (mc md : mode) (S : fsys) (o : tcall) : fsys * tobs :=
   match o with
   | TRead p loc => (S, OBytes (read_file md S p loc))
   | TWrite p b loc => let '(S', r) := write_file mc S p b loc in (S', OUnit r)
